@@ -35,13 +35,18 @@ TRUSTED = [
     'member is, or is a proper prefix of, a member that is a proper prefix of no member (ghost MaxPrefixLemma; proved as '
     'theorem exists_maximal_extension in lean/MaxPrefix.lean, re-checked by `lean` in the thorough tier; the correspondence '
     'between the Lean statement over List (List a) and the SMT axiom over Seq[Seq[Node]] is by hand)',
+    'find_all_reachable uses a second lemma that needs induction: a vertex is reachable (reflexive-transitive closure of the '
+    'edge relation) iff it lies on a simple path from the start (ghost ReachIsOnSimplePath; proved as theorem '
+    'reach_iff_on_simple_path in lean/SimplePath.lean for an arbitrary relation, re-checked by `lean` in the thorough tier; '
+    'correspondence with PathExt by hand)',
 ]
 ASSUMPTIONS = [
     'find_all_reachable is proved to return exactly the vertices that lie on a simple path starting at the vertex (the '
-    'union over ALL simple paths, not only the maximal ones it iterates over); that this set is the reflexive-transitive '
-    'closure of the edge relation (every reachable vertex is reachable by a simple path) is NOT proved: bounded stand-in '
-    '(exhaustive over all digraphs up to the stated vertex count, self-loops and non-key targets included); find_all_paths '
-    'is proved partially correct (exactly the simple paths extending the given prefix; termination is not proved)',
+    'union over ALL simple paths, not only the maximal ones it iterates over) and hence exactly the reflexive-transitive '
+    'closure TReach of the edge relation (targets need not be keys); the step from one to the other (every reachable vertex '
+    'is reachable by a simple path: loop erasure) is the lemma reach_iff_on_simple_path of lean/SimplePath.lean; '
+    'find_all_paths is proved partially correct (exactly the simple paths extending the given prefix; termination is not '
+    'proved); all queries are also compared with the reference on all small digraphs (bounded cross-check)',
     'find_longest_paths: its result is exactly the elements of find_all_paths(graph, vertex) which are not a proper '
     'prefix of another element',
 ]
@@ -56,7 +61,8 @@ def custom_proof(tier):
     import subprocess
     import time
     out = []
-    for fname, thm in (('Reach.lean', 'reach_iff_rreach'), ('MaxPrefix.lean', 'exists_maximal_extension')):
+    for fname, thm in (('Reach.lean', 'reach_iff_rreach'), ('MaxPrefix.lean', 'exists_maximal_extension'),
+                       ('SimplePath.lean', 'reach_iff_on_simple_path')):
         t0 = time.time()
         name = 'lean/%s/%s' % (fname, thm)
         try:
